@@ -63,24 +63,54 @@ def evaluate(ids, seeds=("0",), tier="quick"):
         try:
             verdict = "missed"
             detail = ""
-            also = []
-            for sd in seeds:
-                t0 = time.time()
-                p = sh("cd %s && VERIF_SEED=%s timeout 1500 ./check %s --tier %s" % (VERIF, sd, pid, tier))
-                if p.returncode == 1 and ("VIOLATION property=%s" % pid) in p.stdout:
-                    verdict = "caught"
-                    lines = [l for l in p.stdout.splitlines() if l.startswith("  clause=")]
-                    detail = (lines[0].strip() if lines else "")[:160] + " (%.0fs, seed %s)" % (time.time() - t0, sd)
-                    break
-                elif p.returncode == 2:
-                    verdict = "harness-error"
-                    detail = [l for l in p.stdout.splitlines() if "HARNESS" in l][:1]
-            rows.append((sid, pid, verdict, detail))
+            checks = [pid]
+            if os.environ.get("MATRIX"):
+                man = json.load(open(os.path.join(VERIF, "MANIFEST.json")))
+                checks = [pid] + [c["property_id"] for c in man["checks"] if c["property_id"] != pid]
+            per = {}
+            for chk in checks:
+                for sd in seeds:
+                    t0 = time.time()
+                    p = sh("cd %s && VERIF_SEED=%s timeout 1500 ./check %s --tier %s" % (VERIF, sd, chk, tier))
+                    ent = per.setdefault(chk, {"caught_seeds": [], "missed_seeds": [], "signatures": []})
+                    if p.returncode == 1 and ("VIOLATION property=%s" % chk) in p.stdout:
+                        lines = [l for l in p.stdout.splitlines() if l.startswith("  clause=")]
+                        ent["caught_seeds"].append(sd)
+                        for l in lines[:3]:
+                            if l.strip() not in ent["signatures"]:
+                                ent["signatures"].append(l.strip()[:200])
+                        if chk == pid and verdict != "caught":
+                            verdict = "caught"
+                            detail = (lines[0].strip() if lines else "")[:160] + " (%.0fs, seed %s)" % (time.time() - t0, sd)
+                    elif p.returncode == 2 or p.returncode > 2:
+                        ent.setdefault("harness_error_seeds", []).append(sd)
+                        if chk == pid and verdict == "missed":
+                            verdict = "harness-error"
+                            detail = str([l for l in p.stdout.splitlines() if "HARNESS" in l][:1])
+                    else:
+                        ent["missed_seeds"].append(sd)
+            rows.append((sid, pid, verdict, detail, per))
         finally:
             sh("git -C %s checkout -- ." % REPO)
-        print("%-28s %s %-8s %s" % rows[-1])
+        print("%-28s %s %-8s %s" % rows[-1][:4])
+        others = [c for c in per if c != pid and per[c]["caught_seeds"]]
+        if others:
+            print("%-28s also caught by %s" % ("", " ".join(others)))
         sys.stdout.flush()
-    json.dump([list(r) for r in rows], open(os.path.join(VERIF, "out", "seeded_eval.json"), "w"), indent=1, default=str)
+        # record in the seeded change's meta.json what was run and what it showed
+        meta["evaluation"] = {"tier": tier, "seeds": list(seeds), "command": "git -C /repo apply seeded/%s/patch.diff; VERIF_SEED=<seed> ./check <ID> --tier %s; git -C /repo checkout -- ." % (sid, tier),
+                              "own_check": verdict, "per_check": per}
+        json.dump(meta, open(os.path.join(d, "meta.json"), "w"), indent=1, sort_keys=True)
+    outp = os.path.join(VERIF, "out", "seeded_eval.json")
+    old = {}
+    if os.path.exists(outp):
+        try:
+            old = dict((r[0], r) for r in json.load(open(outp)))
+        except Exception:
+            old = {}
+    for r in rows:
+        old[r[0]] = list(r)
+    json.dump([old[k] for k in sorted(old)], open(outp, "w"), indent=1, default=str)
     return 0
 
 
